@@ -11,30 +11,15 @@ From SCC Require Import Base.Sexp Lang.AxSyn Sem.AxSem Model.ParMoves Model.Back
      Model.Linearize Model.LinCheck Generated.Constants Proof.LinBasics
      Proof.X86State Proof.X86Sel Proof.X86Exec Proof.X86ParMoves Proof.SubstGraph Proof.X86Subst
      Proof.X86SimRel Proof.X86SimStmt Proof.X86SimPrint.
+From SCC Require Export Proof.SimFrag.
 Import ListNotations.
 Open Scope Z_scope.
 Open Scope list_scope.
 
 (* ---------- the fragment ---------- *)
-Fixpoint stmt_int (s : stmt) : bool :=
-  match s with
-  | Substitute re next => forallb (fun p : binding * ident => is_int_binding (fst p)) re && stmt_int next
-  | Call _ _ | Exit _ => true
-  | Literal _ _ next | Op _ _ _ _ next | PrintI64 _ _ next => stmt_int next
-  | IfC _ _ _ t e => stmt_int t && stmt_int e
-  | Let _ _ _ _ _ | Switch _ _ _ | Create _ _ _ _ _ | Invoke _ _ _ _ => false
-  end.
-Definition def_int (d : def) : bool := ctx_int (dctx d) && stmt_int (dbody d).
-Definition int_frag (p : prog) : bool := forallb def_int (pdefs p).
-(* no definition is named like a statement-boundary marker ('#...'): such labels are outside the
-   uniqueness check of asm_wf; no name produced by the parser or by the pipeline starts with '#' *)
-Definition plain_names (p : prog) : bool := forallb (fun d => negb (is_hash_label (show_ident (dname d)))) (pdefs p).
-
-Definition good (o : obs) : Prop := (exists z, snd o = OExit z) \/ (exists w, snd o = OUndef w).
-Lemma not_good_stuck out w : ~ good (finish out (OStuck w)).
-Proof. intros [(z & H)|(z & H)]; discriminate. Qed.
-Lemma not_good_fuel out : ~ good (finish out OOutOfFuel).
-Proof. intros [(z & H)|(z & H)]; discriminate. Qed.
+(* stmt_int, def_int, int_frag, plain_names (over `hash_name`, which is `is_hash_label`), good, not_oof: Proof/SimFrag.v *)
+Lemma hash_name_is l : hash_name l = is_hash_label l.
+Proof. reflexivity. Qed.
 
 (* ---------- the frame above the spill area ---------- *)
 Definition outer_ok (s : xstate) (sp : Z) : Prop :=
@@ -130,12 +115,6 @@ Lemma is_hash_app_ s : is_hash_label (s +++ "_") = true -> is_hash_label s = tru
 Proof. destruct s as [|c s]; cbn; auto. Qed.
 
 (* ---------- progress: a linearly well-typed statement of the fragment does not get stuck ---------- *)
-Lemma lookup_of_in (e : env) x : In x (env_ids e) -> exists v, AxSem.lookup e x = Some v.
-Proof.
-  induction e as [|[y w] e IH]; cbn; [tauto|]. intros [E|H].
-  - rewrite E, N.eqb_refl. eauto.
-  - destruct (N.eqb (idn y) x); eauto.
-Qed.
 Lemma has_ext_lookup_int CL c e st sp a : rel CL c e st sp -> has_ext c a = true -> exists x, lookup_int e a = Some x.
 Proof.
   intros R H. unfold has_ext, has in H. destruct (lookup_b c (idn a)) as [b|] eqn:L; [|discriminate].
@@ -155,22 +134,6 @@ Proof.
   intros R H. unfold has in H. destruct (lookup_b c (idn a)) as [b|] eqn:L; [|discriminate].
   apply lookup_b_Some in L as [Hin Hid]. apply lookup_of_in. rewrite (rel_ids R), <- Hid. now apply In_ids.
 Qed.
-Lemma lookups_total (e : env) : forall xs, (forall x, In x xs -> exists v, lookup_id e x = Some v) ->
-  exists vs, lookups e xs = Some vs /\ List.length vs = List.length xs.
-Proof.
-  induction xs as [|x xs IH]; intros H; cbn [lookups]; [exists []; auto|].
-  destruct (H x (or_introl eq_refl)) as (v & ->). destruct IH as (vs & -> & L); [intros; apply H; now right|].
-  exists (v :: vs). cbn. auto.
-Qed.
-Lemma lookup_label_find_def p l ps :
-  lookup_label (sigs_of p) l = Some ps -> exists d, find_def p l = Some d /\ dctx d = ps.
-Proof.
-  unfold lookup_label, sigs_of, find_def; cbn [sg_labels]. induction (pdefs p) as [|d r IH]; cbn [map find]; [discriminate|].
-  cbn [fst]. destruct (ident_eqb (dname d) l); [|exact IH]. cbn. intros E; inversion E. eauto.
-Qed.
-Definition not_oof (o : obs) : Prop := snd o <> OOutOfFuel.
-Lemma good_not_oof o : good o -> not_oof o.
-Proof. intros [(z & H)|(z & H)] E; congruence. Qed.
 
 Section Main.
 Variable im : image.
